@@ -3,7 +3,7 @@
     ALL grammars; that the emitted text parses, type-checks, compiles and is gofmt-canonical is decided
     by running the Go tools on every file the correspondence runs generate (all eight option sets, plus
     streams for many rules, imports, header comments, odd characters, comments in predicates). *)
-From PegV Require Import Base.Tac Spec.Syntax Model.Analyses Model.EmitFacts Model.Emit Model.Link Proofs.EmitProofs Proofs.EmitWF Proofs.LinkProofs.
+From PegV Require Import Base.Tac Spec.Syntax Model.Analyses Model.EmitFacts Model.Emit Model.Link Model.Optimize Proofs.EmitProofs Proofs.EmitWF Proofs.EmitUse Proofs.LinkProofs.
 Open Scope Z_scope.
 
 (** The type chosen for rule constants (and, since the fix, for the memo key's rule field) holds every
@@ -48,6 +48,21 @@ Theorem C08_labels_gotos_declarations_linked :
 Proof. exact emit_linked_wellformed. Qed.
 Print Assumptions C08_labels_gotos_declarations_linked.
 
+(** Go also rejects a variable that is declared and not used.  Every position / tokenIndex variable
+    the emitted code declares is used later in its own statement list (restored, handed to memoize or to
+    add), provided every ordered choice of the tree has at least two alternatives ([grammar_alt2], which
+    is what the front end builds and what the -switch pass preserves: [C08_switch_keeps_two_alternatives]). *)
+Theorem C08_declared_variables_used :
+  forall g ast inline asu undef, grammar_alt2 g ->
+    Forall (fun o => match o with Some F => du F = true | None => True end) (emit_all g ast inline asu undef).
+Proof. exact emit_all_uses. Qed.
+Print Assumptions C08_declared_variables_used.
+
+Theorem C08_switch_keeps_two_alternatives :
+  forall g, grammar_alt2 g -> grammar_alt2 (optimize g).
+Proof. exact optimize_alt2. Qed.
+Print Assumptions C08_switch_keeps_two_alternatives.
+
 Local Open Scope nat_scope.
 (** The same facts for the code of any single expression, whatever labels the table says are used
     (hence also for grammars with undefined names), with the exactness of the flag that puts a break
@@ -72,7 +87,7 @@ Example C08_skeleton_nonvacuous :
   option_map (fun c => squash (flat c)) (nth 0 (emit_all g true false (fun _ => false) (fun _ => false)) None) =
   Some [TSt; TSave 0; TOpen; TSaveP 1; TOpen; TSave 2; TCJmp 3; TSt; TOpen; TSave 4; TCJmp 4; TSt; TJmp 5; TLbl 4; TRestore 4; TClose; TLbl 5;
         TJmp 2; TLbl 3; TRestore 2; TLbl 6; TOpen; TSave 7; TCJmp 7; TSt; TJmp 6; TLbl 7; TRestore 7; TClose;
-        TOpen; TSave 8; TCJmp 8; TJmp 0; TLbl 8; TRestore 8; TClose; TClose; TLbl 2; TUseP 1; TClose; TSt; TLbl 0; TSt; TRestore 0; TSt].
+        TOpen; TSave 8; TCJmp 8; TJmp 0; TLbl 8; TRestore 8; TClose; TClose; TLbl 2; TUseP 1; TClose; TMemo 0; TSt; TLbl 0; TMemo 0; TRestore 0; TSt].
 Proof. vm_compute. reflexivity. Qed.
 
 Example C08_nonvacuous :
